@@ -594,8 +594,10 @@ func openStore(dir string, options StoreOptions) (*Store, error) {
 
 		err = checkHeader(file)
 		if err != nil {
+			// For example, a file left behind by a crash before its
+			// header was written: fall back to the next older file.
 			file.Close()
-			return nil, err
+			continue
 		}
 
 		// Will recursively restore ChildFooters of childCollections
